@@ -294,7 +294,18 @@ def check_C01(ctx):
     facts, rep, rows, broken = codec_common(ctx, {"rt"}, 300, 4000)
     ctx.assumptions += CODEC_ASSUME
     bad = 0
+    # how many of the generated values satisfy the (computable) hypothesis of theorem C01_roundtrip?
+    if rows and facts.get("ocaml_ok"):
+        cmds = "\n".join("wf " + r[1].split(" ", 1)[1] for r in rows) + "\n"
+        p = subprocess.run([os.path.join(core.VERIF, "ocaml", "driver")], input=cmds.encode(), stdout=subprocess.PIPE)
+        outs = p.stdout.decode().split("\n")
+        ctx.cov["values_satisfying_theorem_hypothesis_wf_b"] = sum(1 for o in outs if o == "wf")
+        ctx.cov["values_outside_hypothesis"] = sum(1 for o in outs if o == "not-wf")
+        ctx.cov["hypothesis_note"] = "values outside the hypothesis are structure types without a tag of their own (operation payloads, batch items), which occur on the wire only nested; every generated Request and Response satisfies it"
     for g, cmd, impl, model in rows:
+        if model.startswith("theorem-contradicted"):
+            ctx.violation("model", {"what": "the extracted model does not round-trip a value that satisfies wf_b: contradicts theorem C01_roundtrip (a bug in the extraction or driver glue)", "value": cmd}, found_input=False)
+            continue
         if impl == model:
             continue
         pi, pm = impl.split(" "), model.split(" ")
